@@ -10,6 +10,7 @@ import MsPack.Spec.CabEncode
 import MsPack.Spec.Lzss
 import MsPack.Spec.Kwaj
 import MsPack.Spec.ChmEncode
+import MsPack.Spec.Deflate
 /-
 `prim WHAT ARGS…`: direct calls of the models of static functions.
 -/
@@ -165,6 +166,26 @@ def handle (toks : List String) : HM State Bool := do
     | some v, some t, some la, some cs, some de, some content, some chs =>
       emit s!"prim encchm {toHex (Chm.encodeChm ⟨v, t, la, cs, de, chs, content⟩)}"
     | _, _, _, _, _, _, _ => emit "prim encchm bad-args"
+    return true
+  | "prim" :: "encdeflate" :: blocks =>
+    -- driver-only: `Deflate.encFrame` of a block list and the data it stands for (`blocksData`):
+    --   prim encdeflate (S<hex>|S= | F<tok>,<tok>,... with tok = L<hexbyte> | M<len>:<dist>)*   ->  prim encdeflate FRAMEHEX DATAHEX
+    let tok (t : String) : Option Deflate.Tok :=
+      if t.startsWith "L" then (parseHex (t.drop 1).toString).bind fun b => match b with | [x] => some (.lit x) | _ => none
+      else if t.startsWith "M" then
+        match (t.drop 1).toString.splitOn ":" with
+        | [a, b] => do let l ← a.toNat?; let d ← b.toNat?; pure (.mat l d)
+        | _ => none
+      else none
+    let block (b : String) : Option Deflate.Block :=
+      if b = "S=" then some (.stored [])
+      else if b.startsWith "S" then (parseHex (b.drop 1).toString).map .stored
+      else if b = "F" then some (.fixed [])
+      else if b.startsWith "F" then ((b.drop 1).toString.splitOn ",").mapM tok |>.map .fixed
+      else none
+    match blocks.mapM block with
+    | some bs => emit s!"prim encdeflate {optHex (some (Deflate.encFrame bs))} {optHex (some (Deflate.blocksData bs []))}"
+    | none => emit "prim encdeflate bad-args"
     return true
   | ["prim", "enckwaj", xor, len, unk1, unk2, extra, dataHex] =>
     -- driver-only: `Kwaj.encodeKwaj` of a specification; absent optional parts are written `-`:
